@@ -7,6 +7,7 @@ import re
 import vlib
 import syslib
 import looplib
+import clilib
 
 
 RESYNC_LOSS = 4
@@ -106,9 +107,41 @@ def loop_oracle(rep, ctx):
         ctx.broken.append(('loopsim', 'loop simulator %s on %s: %s' % (kind, ' '.join(a), txt)))
 
 
+def loop_glue(rep, ctx):
+    """correspondence of the select-loop model (ClientLoop.lstep: watchdog, which handler runs for which readiness, the retransmit
+    guard of D18) with the REAL client_tunnel() loop driven through a scripted select(): T lines of harness/h_clihist.c"""
+    if 'cli' not in ctx.exe:
+        return
+    ok, cli_model, lg = vlib.build_model_driver('CLI')
+    if not ok:
+        ctx.broken.append(('extraction', 'client model driver does not build: ' + lg[-300:]))
+        return
+    n = 150 if rep.tier == 'quick' else 2500
+    hs, st = clilib.gen_loop_histories(rep.seed, n, 80, tag='c02cliloop')
+    rc, impl, err = vlib.parallel_run_cases(ctx.exe['cli'], hs, ctx.work, 'loop-impl')
+    rc2, mod, err2 = vlib.parallel_run_cases(cli_model, hs, ctx.work, 'loop-model')
+    if rc != 0:
+        ctx.broken.append(('impl-crash', 'client loop harness exited with %d: %s' % (rc, err[-300:])))
+    okc = 0
+    for h, a, b in zip(hs, impl, mod):
+        if a == b:
+            okc += 1
+            continue
+        ea, eb = a.split(' ; '), b.split(' ; ')
+        k = next((j for j, (x, y) in enumerate(zip(ea, eb)) if x != y), min(len(ea), len(eb)))
+        evs = h.split(' ; ')
+        ctx.broken.append(('correspondence', 'select-loop model (ClientLoop.lstep) and the real client_tunnel() disagree at iteration %d (event %r) of %r: impl=%r model=%r' % (
+            k, evs[k + 1][:80] if k + 1 < len(evs) else '', ' ; '.join(evs[:k + 2])[-3000:], ea[k][:300] if k < len(ea) else '', eb[k][:300] if k < len(eb) else '')))
+        break
+    rep.cov['client_loop_histories_validated'] = okc
+    rep.cov['client_loop_distribution'] = st
+    rep.cov['evaluations'] = rep.cov.get('evaluations', 0) + sum(h.count(' ; ') for h in hs)
+
+
 def check(rep):
-    ctx = vlib.prepare(rep, harnesses={'sys': syslib.SYS, 'sysreal': syslib.SYS_REAL, 'loopsim': looplib.LOOPSIM}, sanitize=False, model='SYS')
+    ctx = vlib.prepare(rep, harnesses={'sys': syslib.SYS, 'sysreal': syslib.SYS_REAL, 'loopsim': looplib.LOOPSIM, 'cli': clilib.CLI}, sanitize=False, model='SYS')
     loop_oracle(rep, ctx)
+    loop_glue(rep, ctx)
     nh = 160 if rep.tier == 'quick' else 2500
     hs, gens = syslib.gen_clean(rep.seed, nh, 80, 12, tag='c02')
     rep.cov['rule'] = ('random configurations; per schedule an optional fault prefix (loss, duplication, re-ordering, relay re-sends, ticks), all '
